@@ -21,6 +21,7 @@ import (
 
 	"github.com/alibaba/sentinel-golang/core/base"
 	"github.com/alibaba/sentinel-golang/util"
+	"github.com/alibaba/sentinel-golang/util/verifhook"
 )
 
 const (
@@ -79,25 +80,30 @@ func (c *ThrottlingChecker) DoCheck(_ base.StatNode, batchCount uint32, threshol
 	// The interval between two requests (in nanoseconds).
 	intervalNs := int64(math.Ceil(float64(batchCount) / threshold * float64(c.statIntervalNs)))
 
+	verifhook.Yield("th.load")
 	loadedLastPassedTime := atomic.LoadInt64(&c.lastPassedTime)
 	// Expected pass time of this request.
 	expectedTime := loadedLastPassedTime + intervalNs
 	if expectedTime <= curNano {
+		verifhook.Yield("th.cas")
 		if swapped := atomic.CompareAndSwapInt64(&c.lastPassedTime, loadedLastPassedTime, curNano); swapped {
 			// nil means pass
 			return nil
 		}
 	}
 
+	verifhook.Yield("th.reload")
 	estimatedQueueingDuration := atomic.LoadInt64(&c.lastPassedTime) + intervalNs - curNano
 	if estimatedQueueingDuration > c.maxQueueingTimeNs {
 		return base.NewTokenResultBlockedWithCause(base.BlockTypeFlow, BlockMsgQueueing, rule, nil)
 	}
 
+	verifhook.Yield("th.add")
 	oldTime := atomic.AddInt64(&c.lastPassedTime, intervalNs)
 	estimatedQueueingDuration = oldTime - curNano
 	if estimatedQueueingDuration > c.maxQueueingTimeNs {
 		// Subtract the interval.
+		verifhook.Yield("th.rollback")
 		atomic.AddInt64(&c.lastPassedTime, -intervalNs)
 		return base.NewTokenResultBlockedWithCause(base.BlockTypeFlow, BlockMsgQueueing, rule, nil)
 	}
